@@ -232,6 +232,11 @@ def run_schedule(programs, schedule, compression=None, default="stay", lines=Fal
         if isinstance(sess._lock, REAL_LOCK_TYPES):
             sess._lock = CoopLock(sched, "lock")
         sess._start_time = 0.0
+        if compression == "clock0":
+            # the session's clock reads 0.0 for the whole run (no run() has started it yet / a coarse clock that has not advanced
+            # since the connection was made): a Close sent now is sent at session time 0.0
+            sess._start_time = None
+            compression = None
         if compression:
             d = C.Deflate(15, 15, False, compression == "no_takeover")
             if isinstance(getattr(d, "lock", None), REAL_LOCK_TYPES):
